@@ -589,7 +589,7 @@ func main() {
 	sum.Rule = "a case = one operation history (50-300 operations grouped into transactions/scripts of 1-8 operations) executed on a real " +
 		"array or dictionary kept in account storage (every program starts from a fresh storage load of the committed state), once per engine " +
 		"configuration (interpreter, VM, alternating); programs access the container in place through a storage reference, by load+save, on a " +
-		"copy, or from a script; element types Int (incl. >64-bit), String (pads up to 560 chars), [Int] (up to 150 elements), struct; " +
+		"copy, or from a script; element types Int / UInt (incl. >64-bit and non-inlinable values of 2^600..2^7000 inside small and large containers), String (pads up to 560 chars), [Int] (up to 150 elements), struct; " +
 		"observables = every operation's logged result, the error class / static rejection of every program, the stored contents read back at " +
 		"the end; compared with a Go oracle (slices / map) and by the Coq model. evaluations = programs executed and compared; " +
 		"non-trivial = distinct program texts that ran on a container of >= 2 elements or ended in an index error"
@@ -600,12 +600,13 @@ func main() {
 	// --- hand-picked boundary histories (corpus/C20), then histories from a fixed seed
 	r.runCorpus()
 	corpusRng := lib.NewRng(7)
-	for i, k := range []kind{KInt, KStr, KArr, KStruct} {
+	for i, k := range []kind{KInt, KStr, KArr, KStruct, KUInt} {
 		r.runArrayHistory(genArrayHistory(corpusRng, k, false, 6, 60, fmt.Sprintf("corpus-array-%d", i)))
 		r.runArrayHistory(genArrayHistory(corpusRng, k, true, 4, 40, fmt.Sprintf("corpus-fixed-%d", i)))
 	}
 	r.runDictHistory(genDictHistory(corpusRng, KInt, KInt, 6, 60, "corpus-dict-0"))
 	r.runDictHistory(genDictHistory(corpusRng, KStr, KStruct, 6, 60, "corpus-dict-1"))
+	r.runDictHistory(genDictHistory(corpusRng, KUInt, KUInt, 6, 60, "corpus-dict-2"))
 
 	// --- generated histories
 	type prof struct{ target, ops int }
@@ -614,7 +615,8 @@ func main() {
 	if thorough {
 		nArr, nFix, nDict = 100, 24, 90
 	}
-	kinds := []kind{KInt, KStr, KArr, KStruct}
+	kinds := []kind{KInt, KStr, KArr, KStruct, KUInt}
+	keyKinds := []kind{KInt, KStr, KUInt}
 	for i := 0; i < nArr; i++ {
 		p := profiles[i%len(profiles)]
 		k := kinds[rng.Intn(len(kinds))]
@@ -630,10 +632,13 @@ func main() {
 	}
 	for i := 0; i < nDict; i++ {
 		p := profiles[i%len(profiles)]
-		kk := []kind{KInt, KStr}[rng.Intn(2)]
+		kk := keyKinds[rng.Intn(len(keyKinds))]
 		vk := kinds[rng.Intn(len(kinds))]
-		if i < 8 {
-			kk, vk = []kind{KInt, KStr}[i%2], kinds[(i/2)%4]
+		if i < 10 {
+			kk, vk = keyKinds[i%3], kinds[i%5]
+		}
+		if i%4 == 3 { // both key and value types are integer types
+			kk, vk = keyKinds[2*rng.Intn(2)], []kind{KInt, KUInt}[rng.Intn(2)]
 		}
 		r.runDictHistory(genDictHistory(rng, kk, vk, p.target, p.ops, fmt.Sprintf("dict-%d", i)))
 	}
